@@ -144,6 +144,10 @@ def inputs_for(prop, tier):
             items.append({"kind": "at-point", "point": "merge.selected", "config": {"merge": {"policy": "always", "check_interval_ms": 40, "triggers": trig}}})
             items.append({"kind": "at-point", "point": "bg.sync.woke", "config": {"sync": {"interval_ms": 30}}})
             items.append({"kind": "writer-busy", "config": far})
+            # the `window` policy (every hour inside the window) goes through the same life cycle
+            win = {"window": {"start": 0, "end": 23}}
+            items.append({"kind": "at-point", "point": "bg.merge.woke", "config": {"merge": {"policy": win, "check_interval_ms": 40, "triggers": trig}}})
+            items.append({"kind": "at-point", "point": "bg.merge.triggered", "config": {"merge": {"policy": win, "check_interval_ms": 40, "triggers": trig}}})
         items.append({"kind": "quick-cycles", "n": 25 if q else 100, "config": far})
         items.append({"kind": "quick-cycles", "n": 25 if q else 100, "config": {"sync": {"interval_ms": 3600000}, "merge": {"policy": "never"}}})
         items.append({"kind": "cycles", "n": 50 if q else 200, "config": {"merge": {"policy": "always", "check_interval_ms": 50}, "sync": {"interval_ms": 20}}})
